@@ -164,7 +164,7 @@ def rule_default_filter(ctx: Ctx, repo: Repo) -> None:
     for fn in ("", "<string>", "<frozen importlib._bootstrap>", "<stdin>"):
         ri = RepoInterp(repo, f, may_fork=())
         effects: List[str] = []
-        ri.call_hook = lambda call, fname, fval, args, kwargs, st, _e=effects: _e.append(norm(call.func)) or None
+        ri.call_hook = lambda call, fname, fval, args, kwargs, st, _e=effects: (None if isinstance(fval, K) and isinstance(fval.v, str) else _e.append(norm(call.func))) or None
         try:
             outs = ri.run({cparam: R("code", co_filename=K(fn), co_name=K("f"))})
         except AnalysisError as e:
